@@ -4,13 +4,16 @@ package c19
 
 import (
 	"errors"
-	"sync/atomic"
 	"fmt"
 	"math/rand/v2"
 	"net"
 	"net/netip"
+	"os"
+	"path/filepath"
+	"sort"
 	"strings"
 	"sync"
+	"sync/atomic"
 	"time"
 
 	mdns "github.com/miekg/dns"
@@ -115,6 +118,181 @@ func concurrent(res *core.Result, r *rand.Rand, rounds int) {
 	}
 	res.Count("concurrent_rounds", int64(rounds*4))
 	res.Case(fmt.Sprintf("concurrent|%d", r.IntN(1<<30)), true)
+}
+
+// concurrentRemap: learned names are asked for all the time while they are mapped, re-mapped and deleted (the
+// dashboard edits mappings while the resolver serves). When writers and readers have finished, every name must
+// answer exactly what its last write left: the last address, or a name error after a delete.
+func concurrentRemap(res *core.Result, r *rand.Rand, names int) {
+	w, err := buildWorld(r)
+	if err != nil {
+		return
+	}
+	defer w.conn.Close()
+	type final struct {
+		ip      netip.Addr
+		deleted bool
+	}
+	moving := make([]string, names)
+	last := make([]final, names)
+	for i := range moving {
+		moving[i] = fmt.Sprintf("moving-%d-%d.myco", i, r.IntN(1000000))
+	}
+	var stop atomic.Bool
+	var wg sync.WaitGroup
+	for g := 0; g < 6; g++ {
+		wg.Add(1)
+		go func(g int) {
+			defer wg.Done()
+			for i := g; !stop.Load(); i++ {
+				n := moving[i%len(moving)]
+				_, _ = w.srv.Lookup(n)
+				if i%5 == 0 {
+					rec := &recorder{}
+					q := new(mdns.Msg)
+					q.Question = []mdns.Question{{Name: n + ".", Qtype: mdns.TypeAAAA, Qclass: mdns.ClassINET}}
+					w.srv.ServeDNS(rec, q)
+				}
+			}
+		}(g)
+	}
+	for round := 0; round < 6; round++ {
+		for i, n := range moving {
+			ip := routable(r)
+			if round == 5 && i%3 == 0 {
+				_ = w.store.DeleteMapping(n)
+				last[i] = final{deleted: true}
+			} else {
+				_ = w.store.SaveMapping(n, ip)
+				last[i] = final{ip: ip}
+			}
+			if i%4 == 0 {
+				time.Sleep(20 * time.Microsecond)
+			}
+		}
+	}
+	time.Sleep(2 * time.Millisecond)
+	stop.Store(true)
+	wg.Wait()
+	for i, n := range moving {
+		ip, src := w.srv.Lookup(n)
+		switch {
+		case last[i].deleted && ip.IsValid():
+			w.violate(res, "deleted-mapping-answers:after-concurrent-lookups", fmt.Sprintf("%s was deleted (the last change to it), but after lookups ran concurrently with the changes it still resolves to %s (source %q)", n, ip, src), map[string]any{"case_id": "concurrent-remap"})
+			return
+		case !last[i].deleted && ip != last[i].ip:
+			w.violate(res, "stale-mapping-answers:after-concurrent-lookups", fmt.Sprintf("%s was last mapped to %s, but after lookups ran concurrently with the changes it resolves to %v (source %q)", n, last[i].ip, ip, src), map[string]any{"case_id": "concurrent-remap"})
+			return
+		}
+	}
+	if w.panicAlerts() > 0 {
+		w.violate(res, "resolver-panic", "the resolver panicked while mappings were changed concurrently", nil)
+		return
+	}
+	res.Count("concurrent_remap_names_checked", int64(names))
+	res.Case(fmt.Sprintf("concurrent-remap|%d", r.IntN(1<<30)), true)
+}
+
+// restarts: learned mappings live in the state file. A router runs, changes exactly one thing about its mappings
+// (deletes one, re-maps one, adds one, or nothing), stops (state saved), and starts again: the resolver of the
+// next run must answer from exactly the mappings the previous run ended with - a deleted name gets a name error.
+func restarts(res *core.Result, r *rand.Rand, dir string) {
+	_ = os.MkdirAll(dir, 0o755)
+	defer os.RemoveAll(dir)
+	path := filepath.Join(dir, "state.json")
+	cfg := config.MakeTestConfig(config.Store{System: config.System{DisableTun: true}, Router: config.Router{Listen: []string{"tcp://127.0.0.1:47369"}}})
+	want := map[string]netip.Addr{}
+	steps := []string{"fill", "delete-one", "remap-one", "nothing", "add-one", "delete-one", "nothing"}
+	var history []string
+	for gen, step := range steps {
+		st, err := storage.NewJSONFileStorage(path)
+		if err != nil {
+			res.Violate("state-file-does-not-load", fmt.Sprintf("the state file of the previous run does not load: %v (runs so far: %s)", err, strings.Join(history, "; ")), map[string]any{"case_id": "restarts"})
+			return
+		}
+		conn, err := net.ListenPacket("udp", "127.0.0.1:0")
+		if err != nil {
+			res.Inconcl("listen: %v", err)
+			return
+		}
+		srv, err := dns.New(env.NewBareInstance(env.NewIdentity(r, nil), cfg), conn, st)
+		if err != nil {
+			conn.Close()
+			res.Inconcl("dns.New: %v", err)
+			return
+		}
+		// the resolver of this run answers from what the previous run left
+		names := make([]string, 0, len(want)+2)
+		for n := range want {
+			names = append(names, n)
+		}
+		sort.Strings(names)
+		for _, n := range append(names, history2names(history)...) {
+			ip, src := srv.Lookup(n)
+			exp, ok := want[n]
+			if ok && ip != exp {
+				conn.Close()
+				res.Violate("mapping-lost-or-changed-by-restart", fmt.Sprintf("run %d: %s should resolve to %s (as at the end of the previous run), got %v (source %q); runs so far: %s", gen+1, n, exp, ip, src, strings.Join(history, "; ")), map[string]any{"case_id": "restarts"})
+				return
+			}
+			if !ok && ip.IsValid() {
+				conn.Close()
+				res.Violate("deleted-mapping-answers:after-restart", fmt.Sprintf("run %d: %s was deleted in an earlier run and must get a name error, but resolves to %s (source %q); runs so far: %s", gen+1, n, ip, src, strings.Join(history, "; ")), map[string]any{"case_id": "restarts"})
+				return
+			}
+		}
+		switch step {
+		case "fill":
+			for i := 0; i < 5; i++ {
+				n := fmt.Sprintf("learned-%d-%d.myco", i, r.IntN(100000))
+				ip := routable(r)
+				_ = st.SaveMapping(n, ip)
+				want[n] = ip
+			}
+			history = append(history, "run 1 learns 5 mappings")
+		case "delete-one":
+			if len(names) > 0 {
+				n := names[r.IntN(len(names))]
+				_ = st.DeleteMapping(n)
+				delete(want, n)
+				history = append(history, fmt.Sprintf("run %d only deletes %s", gen+1, n))
+			}
+		case "remap-one":
+			if len(names) > 0 {
+				n := names[r.IntN(len(names))]
+				ip := routable(r)
+				_ = st.SaveMapping(n, ip)
+				want[n] = ip
+				history = append(history, fmt.Sprintf("run %d only re-maps %s", gen+1, n))
+			}
+		case "add-one":
+			n := fmt.Sprintf("learned-late-%d.myco", r.IntN(100000))
+			ip := routable(r)
+			_ = st.SaveMapping(n, ip)
+			want[n] = ip
+			history = append(history, fmt.Sprintf("run %d only adds %s", gen+1, n))
+		default:
+			history = append(history, fmt.Sprintf("run %d changes nothing", gen+1))
+		}
+		conn.Close()
+		if err := st.Stop(); err != nil {
+			res.Violate("state-save-failed", fmt.Sprintf("saving the state failed: %v", err), map[string]any{"case_id": "restarts"})
+			return
+		}
+		res.Count("restart_generations", 1)
+	}
+	res.Case(fmt.Sprintf("restarts|%d", r.IntN(1<<30)), true)
+}
+
+// history2names extracts the names mentioned in "only deletes <name>" entries (they must stay unresolvable).
+func history2names(history []string) []string {
+	var out []string
+	for _, h := range history {
+		if i := strings.Index(h, "only deletes "); i >= 0 {
+			out = append(out, h[i+len("only deletes "):])
+		}
+	}
+	return out
 }
 
 var apiAddr = netip.MustParseAddr("fd00::b909")
@@ -770,12 +948,21 @@ func run(c *core.Ctx) {
 	if c.RaceBuild {
 		for i := 0; i < c.Q(6, 60); i++ {
 			concurrent(res, core.RNG(fmt.Sprintf("c19/race/%d", i)), 400)
+			concurrentRemap(res, core.RNG(fmt.Sprintf("c19/race-remap/%d", i)), 12)
 		}
 		return
 	}
 	for i := 0; i < c.Q(6, 60); i++ {
 		concurrent(res, core.RNG(fmt.Sprintf("c19/conc/%d", i)), 3000)
 	}
+	for i := 0; i < c.Q(6, 60); i++ {
+		concurrentRemap(res, core.RNG(fmt.Sprintf("c19/remap/%d", i)), 40)
+	}
+	parallel(4, func(wi int) {
+		for i := 0; i < c.Q(3, 30); i++ {
+			restarts(res, core.RNG(fmt.Sprintf("c19/restarts/%d/%d", wi, i)), filepath.Join(c.WorkDir, fmt.Sprintf("restarts-%d-%d", wi, i)))
+		}
+	})
 	n := c.Q(200, 5000)
 	const W = 16
 	parallel(W, func(wi int) {
